@@ -104,7 +104,9 @@ func treesCmd(args []string) *rep.Result {
 		go func() {
 			defer wg.Done()
 			for j := range jobs {
-				runTreeLaw(j.l, j.pkg, &conc.Ctx{C: cp, V: cp.Variants[j.v], Seed: j.s}, j.mode, res)
+				safely(res, "trees", &TreesCase{Sub: "trees", Line: j.l, Pkg: j.pkg.Name, Variant: j.v, Seed: j.s, Mode: j.mode}, func() {
+					runTreeLaw(j.l, j.pkg, &conc.Ctx{C: cp, V: cp.Variants[j.v], Seed: j.s}, j.mode, res)
+				})
 			}
 		}()
 	}
